@@ -11,8 +11,8 @@ Open Scope string_scope.
    started by File.Read / File.Seek keeps the read-operation lock and the drive after the
    call returned, and panics on a restore error. *)
 Definition allow_spawn : list string :=
-  ["fs.File.Read$go1"; "fs.File.seekWithoutLocking$go1";
-   "fs.File.Read$go1#1"; "fs.File.seekWithoutLocking$go1#1"].
+  ["fs.File.readWithoutLocking$go1"; "fs.File.seekWithoutLocking$go1";
+   "fs.File.readWithoutLocking$go1#1"; "fs.File.seekWithoutLocking$go1#1"].
 
 Definition locks_ok (allow : list string) (f : string) : bool :=
   check table prims_fixed (mstep flags allow) 40 40 ok_exit 0%N f.
